@@ -3,7 +3,7 @@
    assertion and ordered-choice statements ([prog_ok], a boolean evaluated on every translated
    parser), every token sequence whose spans are increasing and non-empty, every oracle and fuel. *)
 From Coq Require Import List Arith Sorted.
-From LV Require Import Cst Tree ABuild Runtime Exec DiagMono.
+From LV Require Import Cst Tree ABuild Runtime Exec Sema Compile DiagMono CompileOk.
 
 Theorem C06_diagnostics_strictly_increasing_and_in_bounds :
   forall cx prog orc, spans_ok cx -> prog_ok prog = true ->
@@ -14,4 +14,26 @@ Theorem C06_diagnostics_strictly_increasing_and_in_bounds :
     /\ forall d, In d (diags st) -> d_start d <= d_end d /\ d_end d <= max_off cx.
 Proof. exact diag_monotone. Qed.
 
+(* The same for the back-end model: for every grammar without ordered choice and assertions, whatever
+   the analysis returns for it and whatever names stand behind its node kinds, the program
+   [Compile.compile] produces (the function tied to src/backend/rust.rs by the KB correspondence:
+   program equality with the translation of the emitted parser) meets [prog_ok]; no per-parser
+   certificate is needed. *)
+Theorem C06_compiled_program_has_no_choice_or_assertion :
+  forall g ntoks order sm ci,
+    analyse g ntoks order = Some sm -> grammar_plain g = true -> prog_ok (compile g sm ci) = true.
+Proof. exact compile_prog_ok. Qed.
+
+Theorem C06_compiled_parsers :
+  forall g ntoks order sm ci, analyse g ntoks order = Some sm -> grammar_plain g = true ->
+  forall cx orc, spans_ok cx ->
+  forall fuel r root msg st,
+    parse_entry cx (compile g sm ci) orc fuel r root msg = XOk st ->
+    gh st <> None ->
+    StronglySorted lt (map d_start (diags st))
+    /\ forall d, In d (diags st) -> d_start d <= d_end d /\ d_end d <= max_off cx.
+Proof. exact compiled_parser_diag_monotone. Qed.
+
 Print Assumptions C06_diagnostics_strictly_increasing_and_in_bounds.
+Print Assumptions C06_compiled_program_has_no_choice_or_assertion.
+Print Assumptions C06_compiled_parsers.
